@@ -1460,9 +1460,65 @@ func c14QueryEditRewrite(r *fw.Rec) {
 	}
 }
 
+// c14RetargetAfterPrint: an alias / ifunc built as a struct literal is printed,
+// then pointed at a value of another type, then printed again; the same steps
+// without the first print are the reference.
+func c14RetargetAfterPrint(r *fw.Rec) {
+	run := func(kind string, observe bool) (string, string) {
+		var out string
+		pan, msg, _ := fw.Guard(func() {
+			m := ir.NewModule()
+			g1 := m.NewGlobalDef("g1", constant.NewInt(types.I32, 1))
+			g2 := m.NewGlobalDef("g2", constant.NewInt(types.I64, 2))
+			r1 := m.NewFunc("r1", types.NewPointer(types.NewFunc(types.Void)))
+			r1.NewBlock("").NewRet(constant.NewNull(types.NewPointer(types.NewFunc(types.Void))))
+			r2 := m.NewFunc("r2", types.NewPointer(types.NewFunc(types.I32)))
+			r2.NewBlock("").NewRet(constant.NewNull(types.NewPointer(types.NewFunc(types.I32))))
+			var retarget func()
+			if kind == "alias" {
+				al := &ir.Alias{Aliasee: g1}
+				al.SetName("a")
+				m.Aliases = append(m.Aliases, al)
+				retarget = func() { al.Aliasee = g2 }
+			} else {
+				fn := &ir.IFunc{Resolver: r1}
+				fn.SetName("i")
+				m.IFuncs = append(m.IFuncs, fn)
+				retarget = func() { fn.Resolver = r2 }
+			}
+			if observe {
+				_ = m.String()
+			}
+			retarget()
+			out = m.String()
+		})
+		if pan {
+			return "", firstLine(msg)
+		}
+		return out, ""
+	}
+	for _, kind := range []string{"alias", "ifunc"} {
+		r.Eval(1)
+		ref, pm := run(kind, false)
+		if pm != "" {
+			r.Inconclusive("retarget reference fails: " + kind)
+			continue
+		}
+		got, pm2 := run(kind, true)
+		key := "history-differs/class:type-cached-by-a-print-then-" + kind + "-retargeted-to-another-type"
+		if pm2 != "" || got != ref {
+			r.Violate(fw.Violation{Key: key, What: fmt.Sprintf("a literal-built %s printed once and then pointed at a value of another type prints differently from the same steps without the first print: %s %s", kind, pm2, firstDiffLines(ref, got)), Expected: ref, Observed: got})
+			continue
+		}
+		r.Nontrivial(key)
+		r.Tally("witness", "holds:"+key)
+	}
+}
+
 func c14FailedPrint(r *fw.Rec) {
 	c14FailedPrintInNumbering(r)
 	c14QueryEditRewrite(r)
+	c14RetargetAfterPrint(r)
 	build := func(complete bool) (*ir.Module, *ir.Block, *ir.InstMul) {
 		m := ir.NewModule()
 		m.NewGlobalDef("g", constant.NewInt(types.I32, 1))
